@@ -138,14 +138,23 @@ def part_b(ctx, info, replay_obj=None):
 
 import keydist
 
-PARTS = [("a", part_a), ("b", part_b), ("c", keydist.run_part_c)]
+def part_d(ctx, info, rp=None):
+    """(d) exactness / completeness at ANY counter through the store path (group.go filter, group_context.go listing)"""
+    import anncounter
+    anncounter.run_part(ctx)
+    info["parts"]["d"] = ctx.extra.get("announcement_counters")
+    info["rules"].append("(d) announcements sealed after 0 .. 300 (thorough: 20000) published messages pass the recipient's filter, are registered and open exactly the subsequent messages")
+    info["techniques"].append("(d) store-path driver judged by MonAnnCounter.tla")
+
+
+PARTS = [("a", part_a), ("b", part_b), ("c", keydist.run_part_c), ("d", part_d)]
 
 
 def run(ctx, replay=None):
     info = {"parts": {}, "rules": [], "techniques": [], "design_level": {}}
     if replay:
         rp = json.load(open(replay))
-        todo = [(n, f) for n, f in PARTS if n == rp.get("part", "a")]
+        todo = [(n, f) for n, f in PARTS if n == ("d" if rp.get("family") == "anncounter" else rp.get("part", "a"))]
         for n, f in todo:
             f(ctx, info, rp)
     else:
